@@ -236,6 +236,10 @@ func (d *Demuxer) parse() error {
 		return ErrTruncated
 	}
 	totalSize := int(totalSize64)
+	if totalSize < container.RIFFHeaderSize {
+		// RIFF size field smaller than the "WEBP" tag it must cover.
+		return ErrInvalidRIFF
+	}
 	payload := d.data[container.RIFFHeaderSize:totalSize]
 
 	// Parse the first chunk to determine format.
